@@ -5450,8 +5450,14 @@ class PyCdlib:
         else:
             sector_count = boot_load_size
 
-        if boot_dirrecord.inode is None:
-            raise pycdlibexception.PyCdlibInternalError('Tried to add an empty boot dirrecord inode to the El Torito boot catalog')
+        if boot_dirrecord.inode is None or not boot_dirrecord.is_file():
+            raise pycdlibexception.PyCdlibInvalidInput('The El Torito boot file has to be a file with data')
+
+        if boot_dirrecord.get_data_length() == 0:
+            raise pycdlibexception.PyCdlibInvalidInput('The El Torito boot file has to be a file with data')
+
+        if sector_count < 0 or sector_count > 0xffff:
+            raise pycdlibexception.PyCdlibInvalidInput('The El Torito sector count has to fit into 16 bits; use boot_load_size for a large boot file')
 
         system_type = 0
         if media_name == 'hdemul':
